@@ -74,7 +74,16 @@ func (r *Reader) readMdat(b *box) (err error) {
 }
 
 func (r *Reader) newExifBox(b *box) (inner box, err error) {
-	if _, err = b.Discard(int(r.heic.exif.ol.offset) - b.offset - 16); err != nil {
+	// The search window starts 8 bytes before the item, or fewer when the item
+	// lies closer than that to the start of the box's payload.
+	skip := int(r.heic.exif.ol.offset) - (int(b.size) - b.remain + b.offset) - 8
+	if skip < 0 {
+		if skip < -8 {
+			return inner, errors.Wrap(ErrBufLength, "newExifBox")
+		}
+		skip = (skip + 8) % 4
+	}
+	if _, err = b.Discard(skip); err != nil {
 		return
 	}
 	buf, err := b.Peek(16)
